@@ -139,6 +139,21 @@ theorem blocked_poll_is_noop (s : St) (h : (getOp s).2 = .blocked) : (getOp s).1
       · rename_i hh; simp [*] at h
       · rfl
 
+/-- A GET THAT FAILS TAKES NOTHING: whatever the error (the Channel closed / its context cancelled — the caller's own context is
+    checked before the critical section, where nothing has been touched yet), the source, the buffer and the replay position
+    are what they were.  (The harness's `getflip` cases place a cancellation right after that up-front check.) -/
+theorem failed_get_takes_nothing (s : St) (e : Err) (h : (getOp s).2 = .err e) : (getOp s).1 = s := by
+  unfold getOp at *
+  split
+  · rfl
+  · split
+    · split
+      · rename_i hh; simp [*] at h
+      · rfl
+    · split
+      · rename_i hh; simp [*] at h
+      · rfl
+
 /-- … so a Get consisting of any number of unsuccessful polls interleaved with other goroutines' operations, followed by
     one successful poll, has exactly the effect and the result of that ONE poll: the whole call takes effect atomically
     at the instant of its last poll (every attempt re-reads `rollback`, the source and the close flag under the mutex). -/
